@@ -27,6 +27,7 @@ func runC12(p *core.Prog, r *core.Result) {
 		"R12.3 a target's record path is work/<kind>s/<one URL-escaped component derived from package and name>",
 		"R12.4 the project's target and module tables are keyed only by printed labels ((*Label).String())",
 		"R12.6 (necessary for canonicity) every package stored in a Label is canonical by construction: a Clean/Join result, another label's package, \"\" or \"//\"",
+		"R12.9 label.New - which, unlike Parse, is handed the components separately - tests its name for both ':' and '/', its kind for ':' and '/', and its project for ':' (the characters the printed form uses as delimiters), so every label it accepts prints to a string that parses back",
 		"R12.8 (necessary for canonicity: Clean is idempotent) inside Clean's loop a separator is written only in front of an element: from every place a '/' is appended, every feasible path (branch conditions interpreted by the zone analysis) appends an element byte before Clean returns or appends another separator",
 		"R12.7 (parsing never crashes) every index and slice expression of package label is in range on every path, decided by a difference-bound abstract interpretation of the SSA (loop invariants by widening/narrowing, branch facts, immutable string contents, case analysis over short-circuit diamonds); sites on the fields of a lazybuf inside its methods are excepted (their safety is the caller-side invariant w <= r of Clean)",
 		"R12.5 (part of 'parsing never crashes') every string slice in package label whose bound derives from an Index*/LastIndex* result on the sliced string is in range under the established found-ness fact",
@@ -339,6 +340,9 @@ func runC12(p *core.Prog, r *core.Result) {
 	// ---- R12.8 Clean's output never ends in, or doubles, a separator
 	checkCleanSeparators(p, r)
 
+	// ---- R12.9 New accepts only components that print unambiguously
+	checkNewValidation(p, r)
+
 	// LoadTarget re-parses and re-prints the raw label before the lookup
 	if lt := need(p, r, "R12.4", "", "Project", "LoadTarget"); lt != nil {
 		ok := false
@@ -377,6 +381,7 @@ func runC14(p *core.Prog, r *core.Result) {
 		"R14.1 the path GC marks for a target, the path records are read from and the path they are renamed onto are all targetInfoPath of the target's label",
 		"R14.2 every live target and source is marked (loop over Project.targets without filter); the index file and the temp directory are marked under the names their writers use",
 		"R14.3 marking a path marks all its parents up to the project root",
+		"R14.6 every successful return of saveIndex has rewritten the index file (no 'looks current' shortcut): the index a collection may load from always lists the targets of the last full load",
 		"R14.5 the sweep prunes the walk (SkipDir) only below a missing path or a directory, never after handling a file: every stale record and stray temporary of a directory is visited",
 		"R14.4 the sweep removes only entries of the build-state directory walk that are not marked; GC reaches no other file-system mutator",
 	}
@@ -652,6 +657,39 @@ func runC14(p *core.Prog, r *core.Result) {
 	})
 	r.Check(okSelf, "R14.3", "dawn.(*Project).GC$mark#self", p.Pos(mark.Pos()), "the path handed to the marker is itself marked", "the marker marks only parent directories, not the path it is given: every record file is swept")
 	r.Check(okParents, "R14.3", "dawn.(*Project).GC$mark#parents", p.Pos(mark.Pos()), "marking a path marks the path and then, repeatedly, its parent directory", "marking does not walk up the parent directories: the sweep removes a directory that contains live records")
+
+	// ---- R14.6 the index a collection may load from is rewritten by every full load: saveIndex has no successful
+	// return that skips the write (an index kept because it merely looks current - by file times, say - lacks targets
+	// whose appearance touched no module file, and a collection loaded from it deletes their records)
+	if si := p.Func("", "Project", "saveIndex"); si != nil {
+		isWrite := func(in ssa.Instruction) bool {
+			c, ok := in.(ssa.CallInstruction)
+			if !ok {
+				return false
+			}
+			return core.IsCallTo(c, "os", "Create") || core.IsCallTo(c, "os", "OpenFile") || core.IsCallTo(c, "os", "WriteFile") || core.IsCallTo(c, "os", "CreateTemp")
+		}
+		nRet := 0
+		for _, ret := range core.ReturnsOf(si) {
+			vals := core.RetVals(ret)
+			if len(vals) == 1 {
+				if nn, known := p.FactsAt(ret).ErrNonNil(vals[0]); known && nn {
+					continue
+				}
+				if !core.IsNilConst(vals[0]) {
+					if _, isCall := vals[0].(*ssa.Call); !isCall {
+						if _, isExt := vals[0].(*ssa.Extract); !isExt {
+							continue
+						}
+					}
+				}
+			}
+			nRet++
+			skips := core.BlockReachesAvoiding(si.Blocks[0], ret, isWrite)
+			r.Check(!skips, "R14.6", fmt.Sprintf("dawn.(*Project).saveIndex#always-writes-%d", nRet), p.InstrPos(ret), "this return is reached only after the index file has been (re)written", "saveIndex can return successfully without rewriting the index: after a change of the target set that touches no module file (a glob picking up a new source) the index is stale, a collection that loads through it does not know the new targets, deletes their records, and the next build re-executes them")
+		}
+		r.Floor("R14.6", nRet, 1, "successful returns of saveIndex")
+	}
 
 	// ---- R14.5 the sweep visits every entry: it prunes (SkipDir) only below a path that does not exist or below a
 	// directory; SkipDir returned for a *file* makes WalkDir skip the remaining entries of that file's directory
@@ -1174,4 +1212,76 @@ func checkCleanSeparators(p *core.Prog, r *core.Result) {
 	})
 	r.Floor("R12.8", n, 1, "separators written inside Clean's loop")
 	r.Floor("R12.8", nElem, 1, "element bytes written by Clean")
+}
+
+
+// checkNewValidation implements R12.9: the delimiter characters of the printed form are tested for in every component
+// that label.New receives separately. (Parse needs fewer tests: its name is "everything after the last colon".)
+func checkNewValidation(p *core.Prog, r *core.Result) {
+	nw := p.Func("label", "", "New")
+	if nw == nil {
+		r.Unk("R12.9", "anchor:label.New", "-", "not found")
+		return
+	}
+	// characters tested against a value: strings.ContainsAny/ContainsRune/Contains/IndexByte/IndexAny/IndexRune with
+	// constant second argument, on the parameter itself or on the parameter of a helper it is handed to
+	var tested func(fn *ssa.Function, prm *ssa.Parameter, depth int) map[rune]bool
+	tested = func(fn *ssa.Function, prm *ssa.Parameter, depth int) map[rune]bool {
+		out := map[rune]bool{}
+		for _, c := range core.Calls(fn) {
+			args := c.Common().Args
+			cal := core.Callee(c)
+			if cal == nil {
+				continue
+			}
+			if cal.Pkg != nil && cal.Pkg.Pkg.Path() == "strings" && len(args) == 2 && args[0] == ssa.Value(prm) {
+				switch cal.Name() {
+				case "ContainsAny", "IndexAny", "Contains", "Index":
+					if k, ok := core.ConstString(args[1]); ok {
+						if cal.Name() == "Contains" || cal.Name() == "Index" {
+							if len([]rune(k)) != 1 {
+								continue
+							}
+						}
+						for _, ch := range k {
+							out[ch] = true
+						}
+					}
+				case "ContainsRune", "IndexRune", "IndexByte":
+					if k, ok := core.ConstInt(args[1]); ok {
+						out[rune(k)] = true
+					}
+				}
+			}
+			if core.InModule(cal) && cal.Blocks != nil && cal.Pkg == fn.Pkg && depth < 2 {
+				for i, a := range args {
+					if a == ssa.Value(prm) && i < len(cal.Params) {
+						for ch := range tested(cal, cal.Params[i], depth+1) {
+							out[ch] = true
+						}
+					}
+				}
+			}
+		}
+		return out
+	}
+	want := map[string]string{"kind": ":/", "project": ":", "name": ":/"}
+	n := 0
+	for _, prm := range nw.Params {
+		w, ok := want[prm.Name()]
+		if !ok {
+			continue
+		}
+		n++
+		got := tested(nw, prm, 0)
+		var missing []string
+		for _, ch := range w {
+			if !got[ch] {
+				missing = append(missing, fmt.Sprintf("%q", string(ch)))
+			}
+		}
+		construct := "label.New#validates-" + prm.Name()
+		r.Check(len(missing) == 0, "R12.9", construct, p.Pos(nw.Pos()), fmt.Sprintf("the %s is tested for %q", prm.Name(), w), fmt.Sprintf("the %s handed to New is not tested for %s: a label is accepted whose printed form has an extra delimiter, so it does not parse or parses to a different label (New(\"\", \"\", \"//a\", \"b:c\") prints //a:b:c, which reads back as kind //a, package b, name c); source files and flags get such labels from user input", prm.Name(), strings.Join(missing, ", ")))
+	}
+	r.Floor("R12.9", n, 3, "separately supplied components of label.New")
 }
